@@ -4,6 +4,8 @@ import GlueVerif.Lemmas.DerivedOrder
 import GlueVerif.Lemmas.DerivedData
 import GlueVerif.Lemmas.DerivedGrammar
 import GlueVerif.Lemmas.DerivedCalls
+import GlueVerif.Lemmas.DerivedHeap
+import GlueVerif.Lemmas.DerivedHeapUpdate
 /-!
 # C14 — derived attributes compute their defining expression and go with their inputs
 
@@ -347,5 +349,178 @@ example :
     ((reorderComps t [4, 3, 2, 2]).map (·.keys)) = none ∧
     (removeComp 4 cyc 0).keys = [] := by
   decide
+
+/-! ### link OBJECTS (`Model/DerivedHeap.lean`)
+
+Everything above treats a link as a value.  The real links are objects: a `BinaryComponentLink` keeps
+its operands **by reference** and caches its inputs in a list object `_from`; one link object may be
+an operand of several expressions and back several derived attributes; `update_id` rewrites link
+objects in place.  The theorems below are about the heap model: `Heap` = link objects + their `_from`
+list objects + `ParsedCommand` objects (+ as ghost state the inputs each object was defined with),
+`HTable` = component table whose derived entries are pointers to link objects. -/
+
+section heap
+open GlueVerif.DerivedHeap
+variable {κ ω α : Type} [DecidableEq κ]
+
+/-- **The constructors create no aliasing and mutate nothing** — the invariant that makes the
+value semantics of links valid.  Starting from the empty heap, after *any* sequence of
+`BinaryComponentLink(left, right, op)` (operands: numbers, identifiers, or existing link objects —
+re-used as often as one likes, on either side or on both), `ComponentLink([...], to, f)`,
+`ParsedCommand(...)` and `ParsedComponentLink(to, parsed)` (several links may share one command
+object), as coded:
+* distinct link objects have distinct `_from` list objects (`NoAlias`);
+* the `_from` list object of every link object holds exactly the inputs the object was defined
+  with (`Coherent`), every reference points to an older object (`WF`: acyclic);
+and every single constructor call leaves **all existing** link objects, list objects, command
+objects and definitions exactly as they were (they are a prefix of the new heap). -/
+theorem build_no_aliasing (bs : List (Build κ ω α)) (h : Heap κ ω α)
+    (hb : runBuilds false {} bs = some h) :
+    h.NoAlias ∧ h.Coherent ∧ h.WF ∧
+    ∀ (h1 h2 : Heap κ ω α) (b : Build κ ω α), h1.Inv → build false h1 b = some h2 →
+      h2.Inv ∧ h1.nodes <+: h2.nodes ∧ h1.lists <+: h2.lists ∧ h1.cmds <+: h2.cmds ∧
+        h1.defIds <+: h2.defIds := by
+  obtain ⟨hi, _⟩ := runBuilds_inv bs {} h Heap.Inv.empty hb
+  exact ⟨hi.own.noAlias, hi.coh, hi.wf, fun h1 h2 b h1i hb' => build_inv h1 h2 b h1i hb'⟩
+
+/-- The hypothesis of `build_no_aliasing` is satisfiable by a program that re-uses link objects:
+`s = x + 1`, `s * y`, `s - z`, `(s * y) - s`, a user-function link, `f + s`, and two
+`ParsedComponentLink`s on one `ParsedCommand`. -/
+example : (runBuilds (κ := Nat) (ω := Nat) (α := Nat) false {}
+    [.binary 0 (.cid 0) (.const 1), .binary 1 (.link 0) (.cid 1), .binary 2 (.link 0) (.cid 2),
+     .binary 2 (.link 1) (.link 0), .func [0] 7 false, .binary 0 (.link 4) (.link 0),
+     .cmd (.bin 0 (.ref 0) (.ref 0)), .parsed 0, .parsed 0]).map
+      (fun h => (h.nodes.length, h.lists)) =
+    some (8, [[0], [0, 1], [0, 2], [0, 1, 0], [0], [0, 0], [0], [0]]) := by
+  decide
+
+/-- **`remove_component` through link objects removes the dependency closure and nothing else**
+(`remove_closure` lifted): on a pointer table of any order, the depth-first recursion of the code
+— which asks every link object for `get_from_ids()`, i.e. reads its `_from` list cell — returns
+exactly the entries whose identifier is not in the dependency closure of the value table in which
+every pointer is resolved to the cell of its object; and when the heap is coherent (which
+`build_no_aliasing` and `heap_calls_keep_invariant` establish) that is the closure w.r.t. the inputs
+the link objects were **defined** with: `implCallH` and `specCallH` agree on every removal. -/
+theorem heap_remove_closure (s : State κ ω α) (k : κ) (fuel : Nat) (hp : PtrTable s.t)
+    (hf : s.t.length ≤ fuel) (hk : k ∈ s.t.keys) :
+    removeCompH s.h.cellIds fuel s.t k =
+      s.t.filter (fun p => !((depClosure (resolve s.h.cellIds s.t) k).contains p.1)) ∧
+    (s.h.WF → s.h.Coherent →
+      implCallH s (.remove k) = specCallH s (.remove k)) := by
+  refine ⟨removeCompH_eq_filter s.h.cellIds fuel s.t k hp hf hk, fun hw hc => ?_⟩
+  have hids : s.h.cellIds = s.h.specIds := funext fun n => cellIds_eq_specIds hw hc n
+  simp only [implCallH, specCallH]
+  cases hfind : s.t.find k with
+  | none => rfl
+  | some c =>
+    simp only
+    rw [removeCompH_eq_filter s.h.cellIds (s.t.length + 1) s.t k hp (Nat.le_succ _) hk, hids]
+
+/-- **`data[k, view]` through link objects is the defining expression, elementwise**
+(`getitem_elementwise` lifted): for every data set of shape `D` whose heap is coherent, every
+normalised view and every target — a component (`.inl k`) or a link object (`.inr n`) — whose
+inputs resolve: `evalH` as coded (operands that are link objects are computed recursively by
+reference, a user-function link is fed `[data[f, view] for f in self._from]` from its **list
+cell**, a parsed link evaluates its possibly shared `ParsedCommand` object) succeeds, returns exactly
+the view's shape and at every index the Spec value at the data index the view addresses — the
+operator / user function / command applied to the values of what the object was **defined** with. -/
+theorem heap_getitem_elementwise (I : Interp ω α) (D : List Nat) (s : State κ ω α) (view : List NAxis)
+    (hok : StateOk D s) (hc : s.h.Coherent) (hv : view.length = D.length) (fuel : Nat) (tgt : Tgt κ)
+    (hr : resolvesH fuel s tgt = true) :
+    ∃ res, evalH I view (viewShapeN view) fuel s tgt = .ok res ∧ res.IsS (viewShapeN view) ∧
+      ∀ idx, InB idx (viewShapeN view) → specH I fuel s (vmapN view idx) tgt = some (res.get idx) :=
+  evalH_spec I D s view hok hc hv fuel tgt hr
+
+/-- **`update_id` on shared link objects: order and values are kept.**  For a data set with unique
+identifiers, a pointer table and a well-formed heap, the accepted call `update_id(old, new)` —
+`Data.update_id` as coded: key rebuild, then `component.link.replace_ids(old, new)` for every derived
+component, rewriting link objects **in place**, a shared object being visited once per path and per
+component — yields the same entries in the same order with `old` renamed (the pointers are
+untouched), and whatever value a component or a reachable link object had at a data index, the
+renamed component / the same object has afterwards. -/
+theorem heap_update_id_preserves (I : Interp ω α) (s : State κ ω α) (old new : κ) (hne : new ≠ old)
+    (hold : old ∈ s.t.keys) (hnew : new ∉ s.t.keys) (hnd : s.t.keys.Nodup) (hp : PtrTable s.t)
+    (hw : s.h.WF) (hv : PtrValid s) :
+    (updateIdH s old new).t = specRename old new s.t ∧
+    (updateIdH s old new).t.keys = s.t.keys.map (fun x => if x = old then new else x) ∧
+    ∀ (idx : List Int) (fuel : Nat) (tgt : Tgt κ) (v : α), Good s tgt →
+      specH I fuel s idx tgt = some v →
+      specH I fuel (updateIdH s old new) idx (renT old new tgt) = some v := by
+  have hc : s.t.keys.contains old = true := by simpa using hold
+  have ht : (updateIdH s old new).t = specRename old new s.t := by
+    simp only [updateIdH, hne, if_false, hc, if_true]
+    exact updateId_false_ptr s.t old new hne hold hnew hnd hp
+  exact ⟨ht, by rw [ht, specRename_keys], fun idx fuel tgt v hg h =>
+    updateIdH_values I s old new hne hold hnew hnd hp hw hv idx fuel tgt v hg h⟩
+
+/-- **A shared link object is rewritten once**: `replace_ids` applied a second time to the same
+object (which `update_id` does whenever the object is reachable along two paths or backs two
+derived attributes) leaves the whole heap — objects, list cells, commands — exactly as the first
+application left it; and the first application leaves every object reachable from it free of
+`old`. -/
+theorem heap_update_visits_once (old new : κ) (hne : new ≠ old) (fuel : Nat) (h : Heap κ ω α)
+    (n : NodeId) (hi : h.Inv) (hlt : n < fuel) :
+    replaceIds old new fuel (replaceIds old new fuel h n) n = replaceIds old new fuel h n ∧
+    ∀ x, HReach h n x → FreeAt old (replaceIds old new fuel h n) x :=
+  ⟨replaceIds_twice old new hne fuel h n hi hlt,
+   fun x hx => replaceIds_free old new hne fuel h n hi.wf hlt x hx⟩
+
+/-- **Every call keeps the heap invariant** (well-formed, no two link objects share a list
+object, cells = definitions): adding and removing do not touch link objects, `update_id` rewrites
+them in place and keeps the invariant — so `build_no_aliasing` extends to every interleaving of
+constructor calls and data set calls, and the value semantics stays valid along whole histories. -/
+theorem heap_calls_keep_invariant (s s' : State κ ω α) (c : HCall κ α) (hi : s.h.Inv)
+    (hc : implCallH s c = some s') : s'.h.Inv ∧ s'.h.NoAlias :=
+  ⟨implCallH_inv s s' c hi hc, (implCallH_inv s s' c hi hc).own.noAlias⟩
+
+end heap
+
+/-! ### witness: sharing the input list breaks `remove_spec` -/
+
+section sharing
+open GlueVerif.DerivedHeap
+
+/-- `s = x + 1`, `s * y`, `s - z` built by re-using the link object `s` on the left. -/
+def sharedBuilds : List (Build Nat Nat Nat) :=
+  [.binary 0 (.cid 0) (.const 1), .binary 1 (.link 0) (.cid 1), .binary 2 (.link 0) (.cid 2)]
+
+/-- `x, y, z` stored; `s`, `d1 = s * y`, `d2 = s - z` backed by the three link objects. -/
+def sharedTable : HTable Nat Nat :=
+  [(0, .prim ⟨[1], [1], 0, fun _ => 5⟩ false), (1, .prim ⟨[1], [1], 0, fun _ => 6⟩ false),
+   (2, .prim ⟨[1], [1], 0, fun _ => 7⟩ false), (10, ptr 0), (11, ptr 1), (12, ptr 2)]
+
+/-- **Sharing the input list breaks "nothing else".**  As coded, the three link objects have the
+`_from` cells `[x]`, `[x, y]`, `[x, z]`; removing `z` removes `z` and `d2` only, which is what
+`remove_spec` demands of the value table.  In the variant where `BinaryComponentLink.__init__`
+re-uses the left operand's own list object and extends it (`share = true`, the seeded change), the
+object `s` — and `s * y`, which shares the cell — ends up with the cell `[x, y, z]` although it was
+defined with `[x]`: the heap is neither alias-free nor coherent, removing `z` also removes `s` and
+`d1`, and `remove_spec`'s verdict on the definitions is `false`. -/
+theorem shared_list_breaks_remove :
+    (runBuilds false {} sharedBuilds).map (fun h =>
+      (h.lists, (removeCompH h.cellIds 7 sharedTable 2).keys,
+       specRemove (resolve h.specIds sharedTable) 2 (removeCompH h.cellIds 7 sharedTable 2).keys,
+       h.noAliasB, h.coherentB)) =
+      some ([[0], [0, 1], [0, 2]], [0, 1, 10, 11], true, true, true) ∧
+    (runBuilds true {} sharedBuilds).map (fun h =>
+      (h.lists, h.defIds, (removeCompH h.cellIds 7 sharedTable 2).keys,
+       specRemove (resolve h.specIds sharedTable) 2 (removeCompH h.cellIds 7 sharedTable 2).keys,
+       h.noAliasB, h.coherentB)) =
+      some ([[0, 1, 2]], [[0], [0, 1], [0, 2]], [0, 1], false, false, false) :=
+  ⟨by decide, by decide⟩
+
+/-- `update_id(x, x')` with the link object `s = x + 1` shared by `s * y` and `s - z` (all three
+back a derived attribute, so `s` is visited three times): every object ends up renamed exactly once,
+cells and definitions stay equal, and the heap is what the Spec's renaming of everything reachable
+gives. -/
+example :
+    (runBuilds false {} sharedBuilds).map (fun h =>
+      let s' := updateIdH (⟨h, sharedTable⟩ : State Nat Nat Nat) 0 9
+      (s'.t.keys, s'.h.lists, s'.h.defIds, s'.h.coherentB, s'.h.noAliasB,
+       s'.h.nodes == (specRenameH (⟨h, sharedTable⟩ : State Nat Nat Nat) 0 9).h.nodes)) =
+      some ([9, 1, 2, 10, 11, 12], [[9], [9, 1], [9, 2]], [[9], [9, 1], [9, 2]], true, true, true) := by
+  decide
+
+end sharing
 
 end GlueVerif.C14
